@@ -410,6 +410,9 @@ func (eng *Engine) buildVCq(fn *ssa.Function, ct *Contract, qf int) (vc *VC, err
 	co := f.obligeAt(f.R0, "cover", "pre", nil, "false", fn.Pos())
 	co.Cover = true
 	f.run()
+	// obligations generated after the run (postconditions, frames at returns) are not "in" the last executed block:
+	// no covering path conditions for them (a case split over the wrong block's paths would not cover the return)
+	f.cur = nil
 	if ct != nil {
 		for callee := range ct.AtCalls {
 			if f.atCallSeen[callee] == 0 {
@@ -481,6 +484,19 @@ func (eng *Engine) buildVCq(fn *ssa.Function, ct *Contract, qf int) (vc *VC, err
 						o.Src = "only the objects listed in the modifies clause (or allocated during the call) change in heap " + fm.heap
 					}
 				}
+			}
+		}
+		if ct != nil {
+			ap := vc.lookup(f.entry, "alloc", allocSort)
+			for _, h := range vc.freshOnlyHeaps(ct) {
+				srt, _ := vc.sortForHeap(h)
+				hp := vc.lookup(f.entry, h, srt)
+				hq := vc.lookup(r.st, h, srt)
+				if hp == hq {
+					continue
+				}
+				o := f.obligeAt(r.R, "frame", "freshonly:"+h+tag, nil, freshOnlyFormula(ap, hp, hq), r.pos)
+				o.Src = "freshonly: objects allocated before the call are unchanged in heap " + h
 			}
 		}
 		c := f.obligeAt(r.R, "cover", "ret"+tag, nil, "false", r.pos)
